@@ -82,6 +82,9 @@ func repeat(fm *Frame, n int, v any) error {
 }
 
 func readBytes(fm *Frame, max int) (string, error) {
+	if max < 0 {
+		return "", errs.BadValue{What: "n", Valid: "non-negative number", Actual: strconv.Itoa(max)}
+	}
 	in := fm.InputFile()
 	buf := make([]byte, max)
 	read := 0
